@@ -196,7 +196,8 @@ fn flat_bfs_names(version: u16, names: &[&str], with_storage: bool, oracles: Ora
 }
 
 fn c01(tier: &str, thorough: bool) -> i32 {
-    let ctx = Ctx::new("C01", tier, level_mc(), "e1", &["model"]);
+    // "reopen": a reached state that cannot be opened again (the property covers files "created fresh or reopened")
+    let ctx = Ctx::new("C01", tier, level_mc(), "e1", &["model", "reopen"]);
     common_assumptions(&ctx);
     ctx.set_rule("BFS to closure over byte images for the tree alphabet (7 mutators x paths, empty streams), every transition on a fresh real object; live bursts; path-based enumeration of all content-op sequences; a state is distinct by image hash, non-trivial = reached by at least one successful mutation");
     let o = Oracles { model: true, probes: true, refusal: false, spec: false, reopen: false };
@@ -259,6 +260,14 @@ fn c02(tier: &str, thorough: bool) -> i32 {
         let n30 = format!("/{}", "m".repeat(30));
         let ops = vec![Op::Rewrite(n31.clone(), 70), Op::CreateStorage(e31.clone()), Op::CreateStream(s31.clone()), Op::Rewrite(n30.clone(), 5000), Op::RemoveStream(n31), Op::RemoveStorage(e31), Op::RemoveStream(s31), Op::CreateStream(format!("/{}", "y".repeat(32)))];
         add_enum(&ctx, &mut tot, "31-unit names", &EnumCfg { version: v, seed: "fresh".into(), ops, depth: 3, oracles: o, extra_paths: vec![], one_reopen: false, extend_refused: false });
+        // ASCII next to non-ASCII siblings whose UTF-8 length order differs from their UTF-16 length order
+        let mixed = ["/abc", "/\u{e9}\u{e9}", "/\u{4e2d}", "/ab", "/g/abc", "/g/\u{e9}\u{e9}"];
+        let mut ops: Vec<Op> = vec![Op::CreateStorage("/g".into())];
+        for m in mixed {
+            ops.push(Op::CreateStream(m.to_string()));
+            ops.push(Op::RemoveStream(m.to_string()));
+        }
+        add_enum(&ctx, &mut tot, "mixed ASCII / non-ASCII names", &EnumCfg { version: v, seed: "fresh".into(), ops, depth: 3, oracles: o, extra_paths: vec![], one_reopen: false, extend_refused: false });
     }
     // growth seeds: the histories that add directory / FAT / MiniFAT sectors
     for (v, seed) in growth_seeds(thorough) {
@@ -326,6 +335,9 @@ fn c03(tier: &str, thorough: bool) -> i32 {
             remove: true,
         };
         add_enum(&ctx, &mut tot, "data", &EnumCfg { version: v, seed: "fresh".into(), ops: data_ops(&a), depth: if thorough { 3 } else { 2 }, oracles: o, extra_paths: vec![], one_reopen: false, extend_refused: false });
+        // sizes at the mini-stream cutoff next to a mini stream that fills many mini sectors, with removals
+        let cut = DataAlpha { paths: vec!["/s", "/t"], rewrite: vec![64, 4095, 4096, 4097], setlen: vec![4096], append: vec![], patch: vec![], remove: true };
+        add_enum(&ctx, &mut tot, "cutoff sizes", &EnumCfg { version: v, seed: "fresh".into(), ops: data_ops(&cut), depth: 3, oracles: o, extra_paths: vec![], one_reopen: false, extend_refused: false });
         let small = DataAlpha { paths: vec!["/s", "/t"], rewrite: vec![0, 65, 4096], setlen: vec![1, 4097], append: vec![64], patch: vec![(0, 4100)], remove: true };
         add_enum(&ctx, &mut tot, "data deep", &EnumCfg { version: v, seed: "fresh".into(), ops: data_ops(&small), depth: if thorough { 5 } else { 4 }, oracles: o, extra_paths: vec![], one_reopen: false, extend_refused: false });
     }
@@ -344,9 +356,9 @@ fn c03(tier: &str, thorough: bool) -> i32 {
 }
 
 fn c08(tier: &str, thorough: bool) -> i32 {
-    let ctx = Ctx::new("C08", tier, level_mc(), "e1", &["model", "reopen"]);
+    let ctx = Ctx::new("C08", tier, level_mc(), "e1", &["model", "reopen", "array"]);
     common_assumptions(&ctx);
-    ctx.set_rule("all histories of rewrite / set_len / append / remove over boundary sizes; written bytes are position dependent and never zero, so every byte between an old and a new length must read 0 (model pads with zeros) live and after reopen, and any stale or foreign byte is distinguishable");
+    ctx.set_rule("all histories of rewrite / set_len / append / remove over boundary sizes; written bytes are position dependent and never zero, so every byte between an old and a new length must read 0 (model pads with zeros) live and after reopen, and any stale or foreign byte is distinguishable; plus every call sequence (depth 4, thorough 5) of one handle over a resize-centred alphabet (fill_buf, read, write, seeks, set_len to 0/64/100/4096/len-1/len+1/len+600, flush) compared with Vec<u8>+cursor and read back by a fresh handle");
     let o = Oracles { model: true, probes: false, refusal: false, spec: false, reopen: true };
     let mut tot = (0u64, 0u64);
     for v in [3u16, 4] {
@@ -360,6 +372,12 @@ fn c08(tier: &str, thorough: bool) -> i32 {
         let b = DataAlpha { paths: vec!["/s", "/t"], rewrite: vec![100, 4100], setlen: vec![0, 10, 70, 200, 4096, 5000], append: vec![], patch: vec![], remove: true };
         add_enum(&ctx, &mut tot, "two streams (space reuse)", &EnumCfg { version: v, seed: "fresh".into(), ops: data_ops(&b), depth: if thorough { 5 } else { 4 }, oracles: o, extra_paths: vec![], one_reopen: false, extend_refused: false });
     }
+    // the same through ONE handle that reads, seeks, shrinks and grows (the handle's own buffer must not
+    // show bytes from before a shrink): every call sequence over a resize-centred alphabet vs Vec<u8>+cursor
+    let st = crate::e3::explore_alpha(&ctx, &[3, 4], if thorough { &[1024, 1500, 1 << 20] } else { &[1500, 1 << 20] }, if thorough { &[200, 1025, 5000] } else { &[1025, 5000] }, if thorough { 5 } else { 4 }, &crate::e3::resize_alphabet);
+    ctx.note(format!("one handle, resize alphabet (15 calls): configs={} sequences={} calls={}", st.configs, st.sequences, st.calls));
+    tot.0 += st.sequences;
+    tot.1 += st.calls;
     ctx.finish(tot.0, tot.1)
 }
 
@@ -684,7 +702,7 @@ fn c07(tier: &str, thorough: bool) -> i32 {
     let ctx = leak(Ctx::new("C07", tier, level_mc(), "e1h", &["handle"]));
     common_assumptions(ctx);
     ctx.assume("a handle's own stream is never removed or overwritten through another path while the handle is held (the property speaks of handles whose stream exists)");
-    ctx.set_rule("start states = every distinct image reachable by create_stream/remove_stream over the sibling names (all sibling-tree shapes x directory slot assignments the library produces); handles on every ordered choice of <= 2 streams; stream contents of 300/5000/200 bytes and, in a second pass, 4095/4096/64 bytes (both sides of the mini-stream cutoff); every action sequence up to the depth over handle ops (write, append, flush, set_len, read-all) and structural mutations of other entries (remove, overwrite, create stream/storage); handle results checked at every call; at the forced quiescent end: full dump vs model, independent checker and parse, strict reopen");
+    ctx.set_rule("start states = every distinct image reachable by create_stream/remove_stream over the sibling names (all sibling-tree shapes x directory slot assignments the library produces); handles on every ordered choice of <= 2 streams; stream contents of 300/5000/200 bytes and, in a second pass, 4095/4096/64 bytes (both sides of the mini-stream cutoff); in a third pass handles are held on all of four (thorough: five) 64-byte streams and every sequence over {set_len(0), append 128, flush} per handle is run; every action sequence up to the depth over handle ops (write, append, flush, set_len, read-all) and structural mutations of other entries (remove, overwrite, create stream/storage); handle results checked at every call; at the forced quiescent end: full dump vs model, independent checker and parse, strict reopen");
     let mut seqs = 0u64;
     let mut acts = 0u64;
     for v in [3u16, 4] {
@@ -701,6 +719,12 @@ fn c07(tier: &str, thorough: bool) -> i32 {
         let depth = if thorough { 3 } else { 2 };
         let st = crate::e1h::explore(ctx, v, &["a", "b", "c"], depth, thorough, 2, 1);
         ctx.note(format!("v{} cutoff-sized fills depth={}: start_states={} (state,handles) choices={} sequences={} actions={}", v, depth, st.start_states, st.handle_choices, st.sequences, st.actions));
+        seqs += st.sequences;
+        acts += st.actions;
+        // handles on all of four (thorough: five) one-mini-sector streams: every order of releasing and re-taking mini sectors
+        let (names, depth): (&[&str], usize) = if thorough { (&["a", "b", "c", "d", "e"], 5) } else { (&["a", "b", "c", "d"], 4) };
+        let st = crate::e1h::explore_many(ctx, v, names, depth);
+        ctx.note(format!("v{} handles on all of {} one-mini-sector streams, depth {}: sequences={} actions={}", v, names.len(), depth, st.sequences, st.actions));
         seqs += st.sequences;
         acts += st.actions;
     }
@@ -938,10 +962,18 @@ fn c05(tier: &str, thorough: bool) -> i32 {
 fn c11(tier: &str, thorough: bool) -> i32 {
     let ctx = leak(Ctx::new("C11", tier, "exploration", "e5", &["panic", "hang", "abort", "memory"]));
     ctx.assume("every case runs in an isolated worker process (stall limit 30 s, confirmed alone with 60 s)");
-    ctx.set_rule("every single corruption of the C05 enumeration that permissive open accepts x every mutation script up to the depth (quick 1, thorough 2) over: create small / large stream, create storage, create under each storage, rewrite / append / set_len(0, 100, 5000) / remove on each existing stream, remove each storage, remove_storage_all(/), setters, flush; each script starts from a fresh open of the corrupted bytes; plus all pairs of chain-cell corruptions on one (thorough: four) bases x every script of length 1; oracle: Ok or Err, never a panic, hang or abort");
+    ctx.set_rule("every single corruption of the C05 enumeration that permissive open accepts x every mutation script up to the depth (quick 1, thorough 2) over: create small / large stream, create storage, create under each storage, rewrite / append / set_len(0, 100, 5000) / remove / relative seeks around the end followed by small writes on each existing stream, remove each storage, remove_storage_all(/), setters, flush; each script starts from a fresh open of the corrupted bytes; plus all pairs of chain-cell corruptions on one (thorough: four) bases x every script of length 1; oracle: Ok or Err, never a panic, hang or abort");
     let only: Option<Vec<&str>> = if thorough { None } else { Some(vec!["fresh-v3", "tree-v3", "mixed-v3", "dir2-v3", "minifull-v3", "synth-three-minis-v3", "fresh-v4"]) };
     let (mut cases, mut scripts) = sweep_all(ctx, crate::e5::Mode::Mutating(if thorough { 2 } else { 1 }), thorough, &[], only.as_deref());
     // all pairs of chain-cell corruptions (see C05) that permissive open accepts x every script of length 1
+    if !thorough {
+        // a V4 file with streams (64-bit stream lengths): field-aware corruptions only in the quick tier
+        let st = crate::e5::sweep_base(ctx, crate::e5::Mode::Mutating(1), "fields:tree-v4", thorough, false, 16);
+        ctx.note(format!("base fields:tree-v4: field-aware single corruptions: cases={} scripts={} problems={} worker restarts={}", st.cases, st.scripts, st.problems, st.restarts));
+        cases += st.cases;
+        scripts += st.scripts;
+        ctx.add("worker_restarts", st.restarts);
+    }
     let chain_bases: Vec<&str> = if thorough { vec!["tree-v3", "mixed-v3", "minifull-v3", "tree-v4"] } else { vec!["tree-v3"] };
     for b in chain_bases {
         let id = format!("chains:{}", b);
@@ -957,7 +989,7 @@ fn c11(tier: &str, thorough: bool) -> i32 {
 }
 
 fn c18_histories(v: u16, depth: usize, sizes: &[usize]) -> Vec<History> {
-    let a = DataAlpha { paths: vec!["/s", "/d/t"], rewrite: sizes.to_vec(), setlen: vec![0, 70, 4096], append: vec![100], patch: vec![(1, 3)], remove: true };
+    let a = DataAlpha { paths: vec!["/s", "/d/t"], rewrite: sizes.to_vec(), setlen: vec![0, 70, 4096], append: vec![100], patch: vec![(1, 3), (60, 4100)], remove: true };
     let mut ops = data_ops(&a);
     ops.push(Op::CreateStorage("/d".into()));
     ops.push(Op::RemoveStorage("/d".into()));
